@@ -17,7 +17,7 @@ TRUSTED = [
     "the real gamedig_cli binary (built from /repo's working tree into /verif/.build/cli-target) is run as a process against a Python loopback UDP server that replays generated reply scripts; clap argument parsing, serde_json, bson and Debug formatting are exercised, not modelled; JSON and BSON outputs are judged by Python's json and a small BSON reader, and compared value by value",
     "TCP and HTTP games (Minecraft, Eco) are not run; exit status and stderr of invalid invocations are observed on the binary only",
 ]
-RULE = ("games of each UDP protocol family (valve: teamfortress2, quake: q3a, gamespy 1/2/3: unrealtournament / hce / crysiswars, unreal 2: unrealtournament2004, savage2, jc2m, mindustry) x generated reply scripts whose strings mix markup characters, quotes, control characters and non-ASCII "
+RULE = ("games of each UDP protocol family (valve: teamfortress2, quake: q3a, gamespy 1/2/3: unrealtournament / hce / crysiswars, GameSpy 1 replies with variables named like members of the response, unreal 2: unrealtournament2004, savage2, jc2m, mindustry) x generated reply scripts whose strings mix markup characters, quotes, control characters and non-ASCII "
         "x output modes generic / protocol-specific x formats debug, json-pretty, json, xml, bson-hex, bson-base64; invalid invocations: unknown game, unresolvable host, unreachable server, invalid values of --port, --format, --output-mode, --read-timeout / --write-timeout / --connect-timeout (0, negative, fractional, tiny, huge, text), --retries; "
         "non-trivial = a document was printed; distinct by (game, script, mode, format)")
 FORMATS = ["debug", "json-pretty", "json", "xml", "bson-hex", "bson-base64"]
@@ -73,8 +73,26 @@ class Raw(str):
     pass
 
 
+def _members_once(pairs):
+    d = {}
+    for k, v in pairs:
+        if k in d:
+            raise ValueError("an object has the member %r twice" % k)
+        d[k] = v
+    return d
+
+
 def parse_json(text):
-    return json.loads(text, parse_float=Raw, parse_int=lambda s: int(s) if abs(int(s)) < 2**63 else Raw(s))
+    return json.loads(text, parse_float=Raw, parse_int=lambda s: int(s) if abs(int(s)) < 2**63 else Raw(s), object_pairs_hook=_members_once)
+
+
+def top_strings(j):
+    """name and map as a document states them at its top level (below the protocol tags of the protocol-specific output)"""
+    while isinstance(j, dict) and len(j) == 1 and isinstance(list(j.values())[0], dict):
+        j = list(j.values())[0]
+    if not isinstance(j, dict):
+        return {}
+    return dict((k, j[k]) for k in ("name", "map") if isinstance(j.get(k), str))
 
 
 def tree_of(v):
@@ -201,6 +219,13 @@ def scripts_for(tier, rng):
     out += [("q3a", "quake%d" % i, [s["dg"]]) for i, s in enumerate(quake_specs([(x, 3) for x in seeds("quake")])) if s["expected"].startswith("Some(")][:n]
     for ver, game in ((1, "unrealtournament"), (2, "hce"), (3, "crysiswars")):
         out += [(game, "gs%d-%d" % (ver, i), s["events"]) for i, s in enumerate(gs_specs(ver, seeds("gs%d" % ver))) if s["fits"]][:n]
+    # GameSpy 1: server variables named like the members of the response (they belong to the unused entries, nowhere else)
+    k = 0
+    for s in gs_specs(1, seeds("gs1")):
+        if s["fits"] and s["events"] and s["events"][0] is not None and len(s["events"][0]) < 900 and k < max(1, n // 2):
+            extra = b"\\name\\set by the admin\\map\\Rogue\\game_mode\\zz\\players\\none\\tournament\\maybe?"
+            out.append(("unrealtournament", "gs1-membernames%d" % k, [extra + s["events"][0]] + list(s["events"][1:])))
+            k += 1
     games = run_model([(bytes([150, g]) + s.to_bytes(8, "big")).hex() for g in (1, 2, 3) for s in seeds("g")[:n]])
     names = ["savage2"] * n + ["jc2m"] * n + ["mindustry"] * n
     for i, (nm, o) in enumerate(zip(names, games)):
@@ -282,6 +307,10 @@ def extra_runs(tier, rng, ctx):
                 ng, ns = player_names(jg), player_names(js_)
                 if ng is not None and ns is not None and ng != ns:
                     fails.append(("generic-differs:players", "%s: the generic output lists players %r, the protocol-specific output %r" % (label, ng[:8], ns[:8]), outs[("generic", "json")][1]))
+                tg, ts_ = top_strings(jg), top_strings(js_)
+                for k in ("name", "map"):
+                    if k in tg and k in ts_ and tg[k] != ts_[k]:
+                        fails.append(("generic-differs:" + k, "%s: the generic output says %s = %r, the protocol-specific output %r" % (label, k, tg[k][:60], ts_[k][:60]), outs[("protocol-specific", "json")][1]))
             except (ValueError, UnicodeDecodeError):
                 pass
         for mode in MODES:
